@@ -1,5 +1,7 @@
 import LassoProofs.C02
 import LassoProofs.Lemmas.Grow
+import LassoProofs.Lemmas.Ctor
+import LassoModel.Construct
 /-
   C08 — the memory limit is a hard cap and memory accounting is exact (sequential use).
 
@@ -130,5 +132,66 @@ theorem growth_logic_is_source :
       (Grow.eval (a.env s) Extracted.lockfreeGrow).map (a.applyOutcome s) = some (a.grow s)) ∧
     Extracted.arenaAllocateIsCheckThenAdd = true :=
   ⟨arena_store_is_source_tree, larena_grow_is_source_tree, arena_allocate_shape⟩
+
+/-! ### Tie to the source: every constructor and builder, regenerated
+
+"For all initial capacities, all limits": an interner can be built through seven constructors (plus
+`Default`) and the `Capacity` / `MemoryLimits` builders.  The extractor regenerates what each of them hands
+on (`Extracted.ctorSpecs`, resolved through any chain of calls between constructors), what the full
+constructor gives to the arena and the tables (`Extracted.fullCtors`) and the values the builders produce
+(`Extracted.capBuilders`, `limBuilders`); `ctorConfig` interprets those tables. -/
+
+/-- For both interners, every constructor, every builder and all numeric arguments: the first block, the
+limit and the pre-sizing are the documented ones (defaults: 50 strings, 4096 bytes, no limit). -/
+theorem constructors_build_documented_configuration (owner : Source.Wrapper)
+    (ho : owner = .rodeo ∨ owner = .threaded) (c : Source.CtorName) (capB : Source.BuilderName)
+    (strings bytes : Nat) (limB : Source.BuilderName) (limit : Nat) :
+    ctorConfig owner c capB strings bytes limB limit = ctorConfigDoc c capB strings bytes limB limit :=
+  ctorConfig_is_documented owner ho c capB strings bytes limB limit
+
+/-- Whatever constructor built it, a fresh `Rodeo` is the state all theorems of C01–C13 start from: it is
+reachable (by the empty history), charges exactly its first block, and reports the limit it was given. -/
+theorem constructed_rodeo_is_initial_state (env : Env) (N : Nat) (c : Source.CtorName) (capB : Source.BuilderName)
+    (strings bytes : Nat) (hb : 0 < bytes) (limB : Source.BuilderName) (limit : Nat) (r : Rodeo)
+    (h : Rodeo.construct N c capB strings bytes limB limit = some r) :
+    ∃ cfg, ctorConfigDoc c capB strings bytes limB limit = some cfg ∧
+      r = Rodeo.new N cfg.arenaBytes cfg.arenaMax ∧ RodeoReach env r ∧
+      r.arena.usage = cfg.arenaBytes ∧ r.arena.max = cfg.arenaMax ∧ r.strings = [] := by
+  unfold Rodeo.construct at h
+  rw [ctorConfig_is_documented _ (Or.inl rfl)] at h
+  cases hc : ctorConfigDoc c capB strings bytes limB limit with
+  | none => rw [hc] at h; simp at h
+  | some cfg =>
+    rw [hc] at h
+    simp only [Option.map_some, Option.some.injEq] at h
+    subst h
+    have hpos : 0 < cfg.arenaBytes := by
+      unfold ctorConfigDoc at hc
+      cases c <;> cases capB <;> cases limB <;> simp [ctorTakes, capDoc, limDoc] at hc <;> (subst hc; simp) <;> omega
+    exact ⟨cfg, rfl, rfl, ⟨N, cfg.arenaBytes, cfg.arenaMax, [], hpos, by simp, rfl⟩, rfl, rfl, rfl⟩
+
+theorem constructed_threaded_is_initial_state (env : Env) (N : Nat) (c : Source.CtorName) (capB : Source.BuilderName)
+    (strings bytes : Nat) (hb : 0 < bytes) (limB : Source.BuilderName) (limit : Nat) (t : Threaded)
+    (h : Threaded.construct N c capB strings bytes limB limit = some t) :
+    ∃ cfg, ctorConfigDoc c capB strings bytes limB limit = some cfg ∧
+      t = Threaded.new N cfg.arenaBytes cfg.arenaMax ∧ ThreadedReach env t ∧
+      t.arena.usage = cfg.arenaBytes ∧ t.arena.max = cfg.arenaMax ∧ t.strs = [] ∧ t.ctr = 0 := by
+  unfold Threaded.construct at h
+  rw [ctorConfig_is_documented _ (Or.inr rfl)] at h
+  cases hc : ctorConfigDoc c capB strings bytes limB limit with
+  | none => rw [hc] at h; simp at h
+  | some cfg =>
+    rw [hc] at h
+    simp only [Option.map_some, Option.some.injEq] at h
+    subst h
+    have hpos : 0 < cfg.arenaBytes := by
+      unfold ctorConfigDoc at hc
+      cases c <;> cases capB <;> cases limB <;> simp [ctorTakes, capDoc, limDoc] at hc <;> (subst hc; simp) <;> omega
+    exact ⟨cfg, rfl, rfl, ⟨N, cfg.arenaBytes, cfg.arenaMax, [], hpos, by simp, rfl⟩, rfl, rfl, rfl, rfl⟩
+
+/-- Non-vacuity: `Rodeo::with_capacity(Capacity::for_bytes(10))` and `Rodeo::with_memory_limits(..)`. -/
+example : Rodeo.construct 255 .withCapacity .forBytes 0 10 .default 0 = some (Rodeo.new 255 10 18446744073709551615) ∧
+    Rodeo.construct 255 .withMemoryLimits .minimal 0 1 .forMemoryUsage 77 = some (Rodeo.new 255 4096 77) := by
+  constructor <;> rfl
 
 end Lasso.C08
